@@ -80,5 +80,104 @@ def h_jwt_decode_jws():
     check(out.raised_only(JoseError, ValueError), "jwt.decode (JWS transport): only JoseError / ValueError escape")
 
 
+# ---- JWE side ------------------------------------------------------------------------------------
+from joserfc import jwe
+from joserfc.jwe import JWERegistry
+from joserfc.jwk import OctKey
+JWE_OCT_ALGS = ["dir", "A128KW", "A192KW", "A256KW", "A128GCMKW", "A256GCMKW", "PBES2-HS256+A128KW", "PBES2-HS512+A256KW",
+                "A128GCM", "A256GCM", "A128CBC-HS256", "A256CBC-HS512", "DEF"]
+
+
+JSON_ALGS = ["dir", "A128KW", "A128GCM", "DEF"]
+
+
+def _jwe_token(hb):
+    return spec_b64u(hb) + b"." + spec_b64u(sym_bytes("ek")) + b"." + spec_b64u(sym_bytes("iv")) + b"." + spec_b64u(sym_bytes("ct")) + b"." + spec_b64u(sym_bytes("tag"))
+
+
+def h_jwe_compact_bytes():
+    key, k = oct_key("k")
+    out = call(jwe.decrypt_compact, sym_bytes("token"), key, ["dir", "A128KW", "A128GCM", "A128CBC-HS256"])
+    check(out.raised_only(JoseError, ValueError), "jwe.decrypt_compact(bytes): only JoseError / ValueError escape")
+
+
+def _jwe_header_json(name, algs):
+    def h():
+        key, k = oct_key("k")
+        hb = sym_bytes("hb")
+        assume(spec_json_ok(hb))
+        out = call(jwe.decrypt_compact, _jwe_token(hb), key, algs)
+        check(out.raised_only(JoseError, ValueError), "jwe.decrypt_compact(any JSON header, oct key; %s): only JoseError / ValueError escape" % name)
+    h.__name__ = "h_jwe_compact_header_json_" + name
+    h.__doc__ = "Five well-formed segments whose protected header is an arbitrary JSON value; algorithms %s" % (algs,)
+    return h
+
+
+h_jwe_compact_header_json_dir = _jwe_header_json("dir", ["dir", "A128GCM", "A256GCM", "A128CBC-HS256", "DEF"])
+h_jwe_compact_header_json_kw = _jwe_header_json("kw", ["A128KW", "A256KW", "A128GCM", "DEF"])
+h_jwe_compact_header_json_gcmkw = _jwe_header_json("gcmkw", ["A128GCMKW", "A256GCMKW", "A128GCM"])
+h_jwe_compact_header_json_pbes2 = _jwe_header_json("pbes2", ["PBES2-HS256+A128KW", "PBES2-HS512+A256KW", "A128GCM"])
+
+
+def h_jwe_compact_ecdh_header_json():
+    """ECDH-ES family with an EC or OKP private key: epk (and apu/apv) are arbitrary JSON."""
+    kind = sym_choice("key", ["ec", "okp"])
+    key = make_key("ec", "E", True, "secp256r1") if kind == "ec" else make_key("okp", "E", True, "x25519")
+    hb = sym_bytes("hb")
+    assume(spec_json_ok(hb))
+    out = call(jwe.decrypt_compact, _jwe_token(hb), key, ["ECDH-ES", "ECDH-ES+A128KW", "A128GCM"])
+    check(out.raised_only(JoseError, ValueError), "jwe.decrypt_compact(any JSON header, EC/OKP key): only JoseError / ValueError escape")
+
+
+def h_jwe_compact_rsa_header_json():
+    key = make_key("rsa", "R", True)
+    hb = sym_bytes("hb")
+    assume(spec_json_ok(hb))
+    out = call(jwe.decrypt_compact, _jwe_token(hb), key, ["RSA-OAEP", "A128GCM"])
+    check(out.raised_only(JoseError, ValueError), "jwe.decrypt_compact(any JSON header, RSA key): only JoseError / ValueError escape")
+
+
+def h_jwe_flattened_members():
+    """Flattened JWE JSON object of the documented shape: str members, dict headers, optional members present or absent."""
+    key, k = oct_key("k")
+    value = {"protected": sym_str("protected"), "iv": sym_str("iv"), "ciphertext": sym_str("ciphertext"), "tag": sym_str("tag")}
+    if sym_choice("with_ek", [True, False]):
+        value["encrypted_key"] = sym_str("encrypted_key")
+    if sym_choice("with_unprotected", [False, True]):
+        value["unprotected"] = sym_dict("unprotected")
+    if sym_choice("with_header", [False, True]):
+        value["header"] = sym_dict("header")
+    if sym_choice("with_aad", [False, True]):
+        value["aad"] = sym_str("aad")
+    out = call(jwe.decrypt_json, value, key, JSON_ALGS)
+    check(out.raised_only(JoseError, ValueError), "jwe.decrypt_json(flattened): only JoseError / ValueError escape")
+
+
+def h_jwe_general_members():
+    key, k = oct_key("k")
+    rcp = {}
+    if sym_choice("with_ek", [True, False]):
+        rcp["encrypted_key"] = sym_str("encrypted_key")
+    if sym_choice("with_header", [False, True]):
+        rcp["header"] = sym_dict("header")
+    value = {"protected": sym_str("protected"), "iv": sym_str("iv"), "ciphertext": sym_str("ciphertext"), "tag": sym_str("tag"), "recipients": [rcp]}
+    if sym_choice("with_unprotected", [False, True]):
+        value["unprotected"] = sym_dict("unprotected")
+    out = call(jwe.decrypt_json, value, key, JSON_ALGS)
+    check(out.raised_only(JoseError, ValueError), "jwe.decrypt_json(general): only JoseError / ValueError escape")
+
+
+def h_jwt_decode_jwe():
+    key, k = oct_key("k")
+    hb = sym_bytes("hb")
+    assume(spec_json_ok(hb))
+    out = call(jwt.decode, _jwe_token(hb), key, ["dir", "A128GCM", "DEF"], JWERegistry())
+    check(out.raised_only(JoseError, ValueError), "jwt.decode (JWE transport): only JoseError / ValueError escape")
+
+
+JWE_HARNESSES = [h_jwe_compact_bytes, h_jwe_compact_header_json_dir, h_jwe_compact_header_json_kw, h_jwe_compact_header_json_gcmkw,
+                 h_jwe_compact_header_json_pbes2, h_jwe_compact_ecdh_header_json, h_jwe_compact_rsa_header_json,
+                 h_jwe_flattened_members, h_jwe_general_members, h_jwt_decode_jwe]
 HARNESSES = [h_jws_compact_bytes, h_jws_compact_header_json, h_jws_compact_str, h_7797_compact_header_json,
              h_jws_flattened_members, h_jws_general_members, h_jwt_decode_jws]
+HARNESSES += JWE_HARNESSES
